@@ -65,3 +65,12 @@ func vreach(id string) {}
 func vknown(id string, c bool) bool { return vOpenKnown[id] && c }
 
 func vlog(a ...interface{}) {}
+
+// vassertK: assertion id whose failures inside `region` are the recorded finding kid while that
+// finding is open; outside the region (or when the finding is fixed/absent) it is a plain assertion.
+func vassertK(id, kid string, region, ok bool) {
+	if vOpenKnown[kid] && region {
+		return
+	}
+	vassert(id, ok)
+}
